@@ -145,10 +145,11 @@ type leafCtx struct {
 	madeHere   map[string]bool   // byte buffers created by make in this function (capacity = length)
 
 	// eighth generation (leaf8.go)
-	logVars      map[string]bool // parameters of type *slog.Logger (dropped)
-	recvName     string          // the receiver's name ("" = a plain function)
-	leanSelf     string          // Lean name of the definition being translated
-	needPrelude3 bool            // the definition uses Model/GoPrelude3.lean
+	logVars      map[string]bool   // parameters of type *slog.Logger (dropped)
+	recvName     string            // the receiver's name ("" = a plain function)
+	leanSelf     string            // Lean name of the definition being translated
+	needPrelude3 bool              // the definition uses Model/GoPrelude3.lean
+	opaque       map[string]string // parameters that are opaque foreign objects (leaf8.go: opaqueMethods) -> their type
 }
 
 func (c *leafCtx) fail(format string, a ...any) {
@@ -430,6 +431,8 @@ func leanTypeName(t string) string {
 		return "Bool"
 	case "Opaque": // element of a slice the function only takes the length of
 		return "Unit"
+	case "Str":
+		return "String"
 	}
 	if strings.HasPrefix(t, "L_") {
 		return "(List " + leanTypeName(strings.TrimPrefix(t, "L_")) + ")"
